@@ -45,7 +45,7 @@ def gen(rng, idx, tier):
     cfg = zoo.gen_cfg(rng)
     ops = []
     p_new = float(rng.choice([0.0, 0.1, 0.25]))
-    for _ in range(int(rng.integers(3, 12))):
+    for _ in range(int(rng.integers(3, 25 if tier == "thorough" else 12))):
         if rng.random() < p_new:
             ops.append(dict(e="newin", seed=int(rng.integers(1 << 30))))
         else:
